@@ -842,20 +842,25 @@ func (e *env) fullCheck(dp depth) {
 		return
 	}
 	e.checkReload(storeB, tB, cur, false, "appends+updates")
-	// Outside the statement (it speaks about append-only histories and about the root after an
-	// update, not about appending after an update): observed, never flagged.
+	// the append path of the updated tree is the append path of the modified list, and the tree
+	// goes on like a tree built from the modified list: the next append gives that list's root
+	if ap := tB.AppendPath(); !eqAll(ap, ref31.AppendPath(cur)) {
+		e.viol("update:append-path-stale", "after Update the tree's append path is not the append path of the modified list", map[string]any{"got": hexAll(ap), "want": hexAll(ref31.AppendPath(cur))})
+	} else {
+		k.Count("append_path_after_update_ok", 1)
+	}
 	extra := leafData(e.d.Salt^0x777, n+11, e.d.Fixed32)
 	var err error
-	pn, _, _ := guard(func() { err = tB.Append(cp(extra)) })
+	pn, msg, _ := guard(func() { err = tB.Append(cp(extra)) })
 	switch {
 	case pn:
-		k.Count("append_after_update(no verdict):panic", 1)
+		e.viol("update:append-afterwards-panics", "Append after Update panics", map[string]any{"panic": msg})
 	case err != nil:
-		k.Count("append_after_update(no verdict):error", 1)
+		e.viol("update:append-afterwards-fails", "Append after Update fails", map[string]any{"err": err.Error()})
 	case bytes.Equal(tB.Root(), ref31.Root(append(append([][]byte{}, cur...), extra))):
-		k.Count("append_after_update(no verdict):root_ok", 1)
+		k.Count("append_after_update:root_ok", 1)
 	default:
-		k.Count("append_after_update(no verdict):root_differs", 1)
+		e.viol("update:append-afterwards-root-differs", "appending to an updated tree does not give the root of the modified list plus the new leaf", map[string]any{"size": n})
 	}
 }
 
